@@ -176,7 +176,7 @@ func init() {
 			}
 			w.event(m, "walk", a[0])
 			for _, f := range w.WalkExtra {
-				fi := Iface{T: m.extType("fileinfo"), V: &Ext{Kind: "fileinfo", F: map[string]Value{"isdir": false, "name": f}}}
+				fi := Iface{T: m.extType("fileinfo"), V: &Ext{Kind: "fileinfo", F: map[string]Value{"isdir": false, "name": f, "xkind": w.WalkExtraKind}}}
 				r := m.callValue(cb, []Value{f, fi, nilErr()}, nil)
 				if !isNilValue(r) {
 					return r
@@ -216,7 +216,7 @@ func init() {
 		}
 		// files with symbolic names the harness placed below the root (trace mode)
 		for _, f := range w.WalkExtra {
-			fi := Iface{T: m.extType("fileinfo"), V: &Ext{Kind: "fileinfo", F: map[string]Value{"isdir": false, "name": f}}}
+			fi := Iface{T: m.extType("fileinfo"), V: &Ext{Kind: "fileinfo", F: map[string]Value{"isdir": false, "name": f, "xkind": w.WalkExtraKind}}}
 			r := m.callValue(cb, []Value{f, fi, nilErr()}, nil)
 			if !isNilValue(r) {
 				return r
